@@ -81,6 +81,16 @@ struct RichInner {
     depth: Vec<Vec<i64>>,
 }
 
+/// A metadata type all of whose fields are optional: with everything unset it is written as an EMPTY `[metadata]` table.
+#[derive(Serialize, Deserialize, Clone, Debug, PartialEq)]
+#[serde(deny_unknown_fields)]
+struct AllOpt {
+    #[serde(skip_serializing_if = "Option::is_none", default)]
+    note: Option<String>,
+    #[serde(skip_serializing_if = "Option::is_none", default)]
+    count: Option<i64>,
+}
+
 fn rich_inner_from(v: &Value) -> RichInner {
     RichInner {
         key: jstr(v, "key").to_string(),
@@ -525,6 +535,45 @@ pub fn handle(st: &mut State, req: &Value) -> Value {
                     v
                 }
             }
+        }
+        // metadata whose type has only optional fields: written, then the layer is requested `requests` more times (keep each time):
+        // every one of them restores the layer and hands the same value to the callback
+        "allopt" => {
+            let ctx = st.ctx.as_ref().expect("init first");
+            let name: LayerName = jstr(req, "name").parse().expect("layer name");
+            let value = AllOpt { note: req.get("note").and_then(Value::as_str).map(String::from), count: req.get("count").and_then(Value::as_i64) };
+            let seen: RefCell<Option<AllOpt>> = RefCell::new(None);
+            let request = |launch: bool| {
+                ctx.cached_layer(
+                    &name,
+                    CachedLayerDefinition {
+                        build: true,
+                        launch,
+                        invalid_metadata_action: &|_: &GenericMetadata| -> Result<(InvalidMetadataAction<AllOpt>, String), TErr> { Ok((InvalidMetadataAction::DeleteLayer, "invalid".to_string())) },
+                        restored_layer_action: &|m: &AllOpt, _: &Path| -> Result<(RestoredLayerAction, String), TErr> {
+                            *seen.borrow_mut() = Some(m.clone());
+                            Ok((RestoredLayerAction::KeepLayer, "kept".to_string()))
+                        },
+                    },
+                )
+            };
+            let first = match request(false) {
+                Ok(r) => r,
+                Err(e) => return err_variant(&e),
+            };
+            if let Err(e) = first.write_metadata(value.clone()) {
+                return err_variant(&e);
+            }
+            let mut rounds = Vec::new();
+            for k in 0..req["requests"].as_u64().unwrap_or(2) {
+                *seen.borrow_mut() = None;
+                let text_before = std::fs::read_to_string(ctx.layers_dir.join(format!("{}.toml", name.as_str()))).unwrap_or_default();
+                match request(k % 2 == 0) {
+                    Ok(r) => rounds.push(json!({"state": state_json(&r.state), "equal": seen.borrow().as_ref() == Some(&value), "seen": format!("{:?}", seen.borrow()), "toml_before": text_before})),
+                    Err(e) => rounds.push(json!({"err": format!("{e:?}"), "toml_before": text_before})),
+                }
+            }
+            json!({"rounds": rounds})
         }
         // a typed metadata value written through a LayerRef and handed back to the restored-layer callback of the next request
         "rich" => {
